@@ -132,6 +132,15 @@ def ite_shapes(n):
         S.append(("bur-extract", ["if", B, ["extract", n - 2, 1, ["add", x, y]], ["extract", n - 2, 1, ["add", x, z]]]))
         S.append(("bur-extract-diffidx", ["if", B, ["extract", n - 2, 1, ["add", x, y]], ["extract", n - 1, 2, ["add", x, y]]]))
     S.append(("bur-outer-op", ["add", ["if", B, ["add", x, y], ["add", x, z]], c0]))
+    # burrowing through width-changing / Boolean operations, with a compound condition
+    cnd = ["ult", x, c0]
+    S.append(("bur-concat-cond", ["if", cnd, ["concat", ["add", x, y], z], ["concat", ["add", x, z], z]]))
+    S.append(("bur-concat-cond-2", ["if", cnd, ["concat", z, ["add", x, y]], ["concat", z, ["xor", x, y]]]))
+    S.append(("bur-zext-cond", ["if", cnd, ["zext", 3, ["add", x, y]], ["zext", 3, ["add", x, z]]]))
+    S.append(("bur-sext-cond", ["if", cnd, ["sext", 2, ["add", x, y]], ["sext", 2, ["add", x, z]]]))
+    S.append(("bur-eq-cond", ["if", cnd, ["eq", ["add", x, y], z], ["eq", ["add", x, z], z]]))
+    S.append(("bur-ult-cond", ["if", ["And", B, B2], ["ult", ["add", x, y], z], ["ult", ["xor", x, y], z]]))
+    S.append(("bur-concat-outer", ["concat", ["if", cnd, ["concat", ["add", x, y], z], ["concat", ["add", x, z], z]], y]))
     return S
 
 
@@ -256,6 +265,10 @@ def _replace_var_build(tree, consts):
 
 def _replace_var_check(runs, s):
     fails = []
+    if META[0]:
+        for lab, e, r, pairs in runs:
+            fails += meta_fails(r, lab)
+        return fails[:1]
     for lab, e, r, pairs in runs:
         ze = conv(e)
         want = z3.substitute(ze, *[(conv(o), conv(n)) for o, n in pairs])
@@ -311,6 +324,10 @@ def _replace_sub_check(runs, s):
     from pysym import engine as E
 
     fails = []
+    if META[0]:
+        for lab, e, r, old, new in runs:
+            fails += meta_fails(r, lab)
+        return fails[:1]
     for lab, e, r, old, new in runs:
         s.push()
         s.add(conv(old) == conv(new))
@@ -363,6 +380,8 @@ def _canon_check(out, s):
     import claripy
 
     e, vm, ctr, c, c2 = out
+    if META[0]:
+        return meta_fails(c, "canonicalize")[:1]
     fails = []
     leaves = {}
     for v in e.leaf_asts():
@@ -448,6 +467,10 @@ def run_ite_util(oid, params, tier):
             want_holder["w"] = Z3Interp().ev(tree)
         want = want_holder["w"]
         fails = []
+        if META[0]:
+            for lab, r in (("first call", r1), ("cached call", r2), ("applied twice", r3)):
+                fails += meta_fails(r, f"{kind}_ite {lab}")
+            return fails[:1]
         for lab, r in (("first call", r1), ("cached call", r2), ("applied twice", r3)):
             f = equiv_fail(s, conv(r), want, kind, f"{kind}_ite ({lab}) of {e!r:.150} gave {r!r:.150}")
             if f:
@@ -801,8 +824,114 @@ RUNNERS = {
 }
 
 
+META = [False]   # C05 mode: the same rewriting runs, the per-path check is on the METADATA of every result instead of its meaning
+
+
+def meta_fails(r, label):
+    """reported width / variable set / symbolic flag / depth of a rewritten expression against its own structure and denoted sort"""
+    import claripy
+
+    from .astleg import _depth, _free_names
+
+    if not isinstance(r, claripy.ast.Base):
+        return []
+    fails = []
+    try:
+        got = conv(r)
+    except Exception as ex:  # noqa: BLE001
+        return [Fail("metadata", f"[{label}] result not translatable: {type(ex).__name__}: {str(ex)[:100]}")]
+    if isinstance(r, claripy.ast.Bits):
+        if not z3.is_bv(got) or r.length != got.size():
+            fails.append(f"length {r.length} but denoted sort {got.sort()}")
+        if len(r) != r.length or r.size() != r.length:
+            fails.append("len()/size() disagree with length")
+    elif getattr(r, "length", None) is not None and isinstance(r, claripy.ast.Bool):
+        fails.append(f"Boolean expression reports a length {r.length}")
+    leaves = {l.args[0] for l in r.leaf_asts() if l.op in ("BVS", "BoolS", "FPS", "StringS")}
+    free = leaves
+    if not leaves <= set(r.variables):
+        fails.append(f"variables {sorted(r.variables)} miss occurring {sorted(leaves - set(r.variables))}")
+    if not r.symbolic and free:
+        fails.append(f"reported concrete but has variables {sorted(free)}")
+    memo = {}
+    if r.depth != _depth(r, memo):
+        fails.append(f"depth {r.depth} but recomputed {_depth(r, memo)}")
+    for sub in r.children_asts():
+        if isinstance(sub, claripy.ast.Bits):
+            try:
+                zs = conv(sub)
+                if sub.length != zs.size():
+                    fails.append(f"sub-expression {sub!r:.60} reports length {sub.length}, denoted width {zs.size()}")
+                    break
+            except Exception:  # noqa: BLE001
+                pass
+        if not sub.variables <= r.variables:
+            fails.append("sub-expression variables not contained in the parent's")
+            break
+    return [Fail("metadata", f"[{label}] " + "; ".join(fails) + f" on {r!r:.160}")] if fails else []
+
+
+def run_setop_replace(oid, params, tier):
+    """C05: substitution into the VSA set operations (no solver translation exists for them: structure-only check, concrete)"""
+    op, form = params["op"], params["form"]
+
+    def build():
+        import claripy
+
+        n = 8
+        x, y, z, w = (claripy.BVS(nm, n, explicit_name=True) for nm in ("x", "y", "z", "w"))
+        e = getattr(x, op)(y)
+        if form == "nested":
+            e = (e + z) ^ 1
+        elif form == "inner":
+            e = getattr(x + 1, op)(y)
+        r1 = claripy.replace(e, x, w)
+        r2 = claripy.replace(r1, w, z + 3)
+        r3 = claripy.replace_dict(e, {x.hash(): y, y.hash(): x})
+        return e, [("x->w", r1, {"w", "y"} | ({"z"} if form == "nested" else set())), ("x->w->z+3", r2, {"z", "y"}),
+                   ("swap", r3, {"x", "y"} | ({"z"} if form == "nested" else set()))]
+
+    def check(path, s, out):
+        e, runs = out
+        fails = []
+        for lab, r, want in runs:
+            leaves = {l.args[0] for l in r.leaf_asts() if l.op == "BVS"}
+            if leaves != want:
+                fails.append(Fail("replace", f"[{lab}] substitution into {e!r:.80} left the symbols {sorted(leaves)}, expected {sorted(want)}"))
+            if not leaves <= set(r.variables):
+                fails.append(Fail("metadata", f"[{lab}] {r!r:.100}: variables {sorted(r.variables)} miss occurring {sorted(leaves - set(r.variables))}"))
+            for sub in r.children_asts():
+                sl = {l.args[0] for l in sub.leaf_asts() if l.op == "BVS"}
+                if not sl <= set(sub.variables):
+                    fails.append(Fail("metadata", f"[{lab}] sub-expression {sub!r:.80}: variables {sorted(sub.variables)} miss {sorted(sl - set(sub.variables))}"))
+                    break
+        return fails
+
+    return symrun.run(oid, width=24, zconsts={}, build=build, check=check,
+                      make_case=lambda vals, f: {"harness": "harness.p_c08", "kind": "setop-replace", "params": params, "consts": {}, "obligation": oid,
+                                                 "detail": f.detail[:300]},
+                      max_paths=5, known=(), sample={"obligation": oid})
+
+
+def meta_obligations(tier):
+    out = []
+    for oid, p in obligations(tier):
+        if oid.split(":")[0] in ("replace-var", "replace-sub", "canon", "excavate", "burrow"):
+            out.append(("meta/" + oid, dict(p, meta=True)))
+    for op in ("union", "intersection", "widen"):
+        for form in ("plain", "nested", "inner"):
+            out.append((f"meta/setop-replace:{op}:{form}", {"op": op, "form": form, "meta": True}))
+    return out
+
+
 def run_obligation(oid, params, tier):
-    return RUNNERS[oid.split(":")[0]](oid, params, tier)
+    META[0] = bool(params.get("meta"))
+    key = oid.split(":")[0]
+    if key.startswith("meta/"):
+        key = key[5:]
+    if key == "setop-replace":
+        return run_setop_replace(oid, params, tier)
+    return RUNNERS[key](oid, params, tier)
 
 
 def _native_solver():
@@ -819,6 +948,10 @@ def replay(case):
     vals = case["consts"]
     s = _native_solver()
     fails = []
+    META[0] = str(case.get("obligation", "")).startswith("meta/")
+    if k == "setop-replace":
+        r = run_setop_replace(case["obligation"], case["params"], "quick")
+        return {"violated": r["status"] == "violation", "detail": r.get("detail", "")}
     try:
         if k in ("replace-var", "replace-sub", "canon", "excavate", "burrow"):
             tree = case["tree"]
@@ -835,7 +968,10 @@ def replay(case):
                 f = _ite_util(k)
                 want = _zi(vals, [tree]).ev(tree)
                 r1 = f(e)
-                for lab, r in (("first call", r1), ("cached call", f(e)), ("applied twice", f(r1))):
+                if META[0]:
+                    for lab, r in (("first call", r1), ("cached call", f(e)), ("applied twice", f(r1))):
+                        fails += meta_fails(r, f"{k}_ite {lab}")
+                for lab, r in (() if META[0] else (("first call", r1), ("cached call", f(e)), ("applied twice", f(r1)))):
                     ff = equiv_fail(s, conv(r), want, k, f"{k}_ite ({lab}) of {e!r:.150} gave {r!r:.150}")
                     if ff:
                         fails = [ff]
